@@ -1097,7 +1097,7 @@ class Exec:
         cv = self.unit.module_consts.get(n, _MISSING)
         if cv is not _MISSING:
             return cv
-        if n in self.mi.consts and isinstance(self.mi.consts[n], (int, float, str, bool, type(None))):
+        if n in self.mi.consts and _plain_const(self.mi.consts[n]):
             return self.mi.consts[n]
         raise EngineError('unbound name %s at line %d in %s' % (n, node.lineno, self.unit.qualname))
 
@@ -1134,6 +1134,10 @@ class Exec:
         return self.getattr(base, node.attr, st, node)
 
     def getattr(self, base, attr, st, node):
+        if attr == 'decode' and (is_sym(base) or isinstance(base, (int, float, tuple)) or
+                                 (isinstance(base, Ref) and isinstance(st.get(base), (Arr, PyList, PyDict, Ragged)))):
+            # numbers, arrays, lists, tuples and dictionaries have no decode(): callers that accept bytes-or-anything rely on it
+            raise _Raise(st, ExcV('AttributeError', getattr(node, 'lineno', 0)))
         if isinstance(base, ModV):
             dotted = base.dotted + '.' + attr
             dotted = CANON.get(dotted.split('.')[0], dotted.split('.')[0]) + dotted[len(dotted.split('.')[0]):]
@@ -1171,6 +1175,11 @@ class Exec:
                     if u is not None and u is not self.unit and attr not in self.unit.inline:
                         return self.call_contract(u, [base], {}, st, node)
                     return self.inline_call(ci, fn, [base], {}, st, node)
+                decs = [ast.unparse(d) for d in getattr(fn, 'decorator_list', [])]
+                if 'staticmethod' in decs:        # obj.f(...) of a static method: nothing is bound
+                    return FuncV('method', (ci, fn), self_val=None)
+                if 'classmethod' in decs:
+                    return FuncV('method', (ci, fn), self_val=FuncV('class', cell.cls))
                 return FuncV('method', (ci, fn), self_val=base)
             if isinstance(cell, Arr):
                 return self.arr_attr(base, cell, attr, st, node)
@@ -1224,6 +1233,8 @@ class Exec:
             return n
         if attr == 'ndim':
             return a.ndim
+        if attr == 'dtype':       # numeric arrays only: the scalar type is never numpy.bytes_ / numpy.str_
+            return AbsObj('dtype', a.kind, {'type': ModV('numpy.int64' if a.kind == 'int' else 'numpy.float64')})
         if attr == 'T':
             if a.ndim == 1:
                 return ref
@@ -1243,6 +1254,10 @@ class Exec:
             else:
                 out.append(self.eval(e, st))
         return out
+
+    def ev_Slice(self, node, st):
+        # only reached for subscripts of abstract objects (arrays parse their slices themselves)
+        return slice(*[None if x is None else self.eval(x, st) for x in (node.lower, node.upper, node.step)])
 
     def ev_Tuple(self, node, st):
         return tuple(self._elts(node, st))
@@ -1444,6 +1459,9 @@ class Exec:
                     r = False
                 else:
                     r = a is b
+            elif isinstance(a, ModV) and isinstance(b, ModV):       # two names of library objects (np.bytes_ is numpy.bytes_)
+                canon = lambda d: CANON.get(d.split('.')[0], d.split('.')[0]) + d[len(d.split('.')[0]):]
+                r = canon(a.dotted) == canon(b.dotted)
             elif isinstance(a, NanRef) or isinstance(b, NanRef):
                 r = isinstance(a, NanRef) and isinstance(b, NanRef) and a.ident == b.ident
             elif isinstance(a, str) and isinstance(b, str):
@@ -2381,7 +2399,14 @@ class Exec:
             raises = [(s, p) for s, k, p in outs if k == 'raise']
             if len(rets) == 1 and all(s is not st for s, _ in raises) is False:
                 pass
-            raise Unsupported('inlined callee %s has %d outcomes' % (fndef.name, len(outs)))
+            if not outs or not self._dec:
+                raise Unsupported('inlined callee %s has %d outcomes' % (fndef.name, len(outs)))
+            # several feasible outcomes: the calling statement is executed once per outcome (the body is re-executed
+            # deterministically from the statement's snapshot, so outcome k is the same outcome each time)
+            choice = self.decide(list(range(len(outs))))
+            if choice >= len(outs):
+                raise Unsupported('inlined callee %s: outcomes changed between re-executions' % fndef.name)
+            outs = [outs[choice]]
         s, k, p = outs[0]
         if s is not st:
             # the callee branched and exactly one branch is feasible: the caller's state continues as that branch
@@ -2491,6 +2516,9 @@ class Exec:
         finally:
             c.assuming = False
         st.assume_named(tag, _named(post))
+        # ghost witness: which callee contract was used on this path, with which arguments and result (contracts name
+        # these instead of the caller's local variables, whose names are not part of anybody's behaviour)
+        st.trace.append(('ghost', ('call:' + u.short, dict(env), ret)))
         return ret
 
     def wrap_ret(self, ret, st):
@@ -2510,6 +2538,13 @@ class NanRef:
 
     def __init__(self, ident):
         self.ident = ident
+
+
+def _plain_const(v):
+    """module-level literal that cannot change at run time: a scalar, or a (nested) tuple of such"""
+    if isinstance(v, tuple):
+        return all(_plain_const(x) for x in v)
+    return isinstance(v, (int, float, str, bool, type(None)))
 
 
 class _Raise(Exception):
